@@ -65,6 +65,7 @@ func mirrorExec(c *Ctx, op string) {
 	var sources []api.WarehouseLocation
 	var srcFiles []string
 	var pickToks []string
+	var missingDirs []string // source locations that do not exist: they must still not exist afterwards
 	firstHolder := ""
 	for i, cd := range conds {
 		kind := []string{"ca", "file"}[i%2]
@@ -74,6 +75,7 @@ func mirrorExec(c *Ctx, op string) {
 		case "missingdir":
 			sources = append(sources, whAddr(kind, filepath.Join(dir, "nope")))
 			pickToks = append(pickToks, scheme+":missingdir")
+			missingDirs = append(missingDirs, dir)
 			continue
 		}
 		os.MkdirAll(dir, 0755)
@@ -173,6 +175,12 @@ func mirrorExec(c *Ctx, op string) {
 		}
 	}
 	checkSources := func(when string) {
+		for _, dir := range missingDirs {
+			if _, e := os.Lstat(dir); e == nil {
+				c.PropFail("source-mutated", when+" created a directory at a source location that did not exist: "+dir, op)
+				os.RemoveAll(dir)
+			}
+		}
 		for dir, dg := range srcSnap {
 			if sn, e := Snapshot(dir); e != nil || sn.Digest(true) != dg {
 				c.PropFail("source-mutated", when+" changed a source warehouse (files, directories or attributes): "+dir, op)
